@@ -416,7 +416,7 @@ def run(report, tier, seed):
     report.coverage["trusted_base"] = ["Coq 8.16.1 kernel + VM", "MathComp (rat) / SsrMultinomials",
                                        "translator divmod_tr.py (statement shapes by ast)", "exact rational arithmetic of the harness"]
     report.assumptions += ["floating-point rounding is outside the model: coefficients are chosen so that all quotients are exact",
-                           "the cut-off rule of get_division_candidate is modelled (DivmodCut.v) and run against the code with cut-offs 1/4..2; the identity is proved for every cut-off, TERMINATION only for a cut-off that skips nothing (the default 1e-30 is far below every quotient coefficient the streams produce; its value is tied by divmod_tr)",
+                           "the cut-off rule of get_division_candidate is modelled (DivmodCut.v) and run against the code with cut-offs 1/4..2; identity and termination are proved for every cut-off; the default's value 1e-30 is tied by divmod_tr (the model's unary rationals cannot evaluate it)",
                            "default retain options (C15 varies options on other operations)"]
 
 
